@@ -27,8 +27,8 @@ def init (dflt : Int) (cb : Option Nat) (now : Int) : St K V := { items := [], n
 the second component says whether the janitor goroutine is started (`cfg.CleanupInterval > 0`). -/
 def newXsyncMapOf (cfg : Option Gen.Config) (cbid : Option Nat) (now : Int) : St K V × Bool :=
   let c := Gen.configDefaultOf cfg
-  ({ items := [], now := now, dflt := c.defaultExpiration, cb := if c.hasCallback then cbid else none },
-   decide (c.cleanupInterval > 0))
+  ({ items := [], now := now, dflt := Gen.newXsyncMapOf_dflt c, cb := if Gen.newXsyncMapOf_hasCb c then cbid else none },
+   Gen.newXsyncMapOf_janitor c)
 
 /-- the public constructors (`cacheof.go`): same shapes as the non-generic ones -/
 abbrev Ctor := Model.Cache.Ctor
@@ -36,14 +36,14 @@ abbrev Ctor := Model.Cache.Ctor
 def construct (c : Ctor) (now : Int) : St K V × Bool :=
   match c with
   | .newOpts dflt cleanup cb mincap =>
-    let cfg := Gen.DefaultConfigOf_
-    let cfg := match dflt with | some d => { cfg with defaultExpiration := d } | none => cfg
-    let cfg := match cleanup with | some i => { cfg with cleanupInterval := i } | none => cfg
-    let cfg := match cb with | some _ => { cfg with hasCallback := true } | none => cfg
-    let cfg := match mincap with | some m => { cfg with minCapacity := m } | none => cfg
-    newXsyncMapOf (some cfg) cb now
+    let opts : List (Gen.Config → Gen.Config) :=
+      (match dflt with | some d => [Gen.WithDefaultExpirationOf d] | none => []) ++
+      (match cleanup with | some i => [Gen.WithCleanupIntervalOf i] | none => []) ++
+      (match cb with | some _ => [Gen.WithEvictedCallbackOf true] | none => []) ++
+      (match mincap with | some m => [Gen.WithMinCapacityOf m] | none => [])
+    newXsyncMapOf (some (Gen.NewOf_cfg opts)) cb now
   | .newDefault dflt cleanup cb =>
-    newXsyncMapOf (some { defaultExpiration := dflt, cleanupInterval := cleanup, minCapacity := 0, hasCallback := cb.isSome }) cb now
+    newXsyncMapOf (some (Gen.NewOfDefault_cfg dflt cleanup cb.isSome)) cb now
 
 /-- `i.expired()` -/
 def expired (s : St K V) (i : Item V) : Bool := Gen.itemOf_expired i.e s.now
